@@ -268,6 +268,45 @@ pub fn generation_reaches_missing(reg: &serde_json::Value) -> bool {
     false
 }
 
+/// same-path members that differ ONLY in which listed parameters are skipped (an associated-type style
+/// parameter `#[scale_info(skip_type_params(U))]` in one crate version, a plain one in the other): the item
+/// declares only the non-skipped parameters, so the two have different generic arity although they list the
+/// same number of parameters (round-4 seeded change C02-4: the arity guard of types_equal counted listed
+/// parameters).  Every order, with a holder that mentions both.
+pub fn skip_flip_families() -> Vec<serde_json::Value> {
+    use serde_json::json;
+    let prim = |id: u32, p: &str| json!({"id": id, "type": {"path": [], "params": [], "def": {"primitive": p}, "docs": []}});
+    // Foo<T, U> { x: T }   with U either bound to `u` (Some) or skipped (None)
+    let foo = |id: u32, t: u32, u: Option<u32>, named: bool| {
+        let mut f = json!({"type": t, "typeName": "T", "docs": []});
+        if named { f["name"] = json!("x"); }
+        json!({"id": id, "type": {"path": ["a", "Foo"],
+            "params": [{"name": "T", "type": t}, {"name": "U", "type": u}], "docs": [],
+            "def": {"composite": {"fields": [f]}}}})
+    };
+    let mut out = vec![];
+    for named in [true, false] {
+        for order in [[0usize, 1], [1, 0]] {
+            for same_t in [true, false] {
+                let mut types = vec![prim(0, "u32"), prim(1, "bool"), prim(2, "u16")];
+                let members = [(0u32, Some(1u32)), (if same_t { 0 } else { 2 }, None)];
+                let mut ids = vec![];
+                for m in order {
+                    let id = types.len() as u32;
+                    types.push(foo(id, members[m].0, members[m].1, named));
+                    ids.push(id);
+                }
+                let hid = types.len() as u32;
+                let fields: Vec<serde_json::Value> = ids.iter().enumerate()
+                    .map(|(k, i)| json!({"name": format!("f{k}"), "type": i, "typeName": "Foo<..>", "docs": []})).collect();
+                types.push(json!({"id": hid, "type": {"path": ["a", "Holder"], "params": [], "docs": [], "def": {"composite": {"fields": fields}}}}));
+                out.push(json!({"types": types}));
+            }
+        }
+    }
+    out
+}
+
 pub fn outside_compact_field() -> Vec<serde_json::Value> {
     use serde_json::json;
     let prim = |id: u32| json!({"id": id, "type": {"path": [], "params": [], "def": {"primitive": "u8"}, "docs": []}});
@@ -778,6 +817,18 @@ pub fn cases(prop: &str, tier: &str, ctx: &mut Ctx, rng: &mut Rng) {
                     let (rj, _) = reggen::build(&p);
                     let reg = reggen::to_registry(&rj);
                     ctx.push_reg("family", &reg, Some(&rj), &base_spec(&reg));
+                }
+            }
+            if prop == "C02" || prop == "C01" {
+                // hand-built families, as they are and after de-duplication
+                for rj in skip_flip_families() {
+                    let reg = reggen::to_registry(&rj);
+                    ctx.push_reg("family:skip-flip", &reg, Some(&rj), &base_spec(&reg));
+                    let mut a = reg.clone();
+                    let r = std::panic::catch_unwind(move || { let r = scale_typegen::utils::ensure_unique_type_paths(&mut a); (r.is_ok(), a) });
+                    if let Ok((true, a)) = r {
+                        ctx.push_reg("family:skip-flip:dedup", &a, None, &base_spec(&a));
+                    }
                 }
             }
             if prop == "C02" {
